@@ -575,11 +575,11 @@ Proof.
     fold (idx s wi) in *.
     destruct B. constructor; cbn [claims slots ri prods delivered alerts returned g_casfail g_newer g_ovl]; try rewrite Hsz; auto.
     + intros i k m' H. rewrite Hidx. rewrite nth_upd in H.
-      destruct (Nat.eqb_spec (idx s wi) i) as [<-|]; [|auto].
-      destruct (Nat.ltb _ _); [|auto]. inversion H; subst. split; auto.
+      destruct (Nat.eqb_spec (idx s wi) i) as [<-|]; [|eapply b_slot0; eauto].
+      destruct (Nat.ltb _ _); [inversion H; subst; split; auto|eapply b_slot0; eauto].
     + intros q k H. rewrite Hidx. rewrite nth_upd in H.
       destruct (Nat.eqb_spec p q) as [->|Hpq].
-      * destruct (Nat.ltb _ _); cbn in H; [discriminate|]. rewrite Ep in H. cbn in H. discriminate.
+      * replace (Nat.ltb q (length (prods s))) with true in H by (symmetry; apply Nat.ltb_lt; auto). cbn in H. discriminate.
       * destruct (b_infl0 q k H) as (H1 & H2 & H3). repeat split; auto.
         -- rewrite nth_upd. destruct (Nat.eqb_spec (idx s wi) (idx s k)) as [Ei|]; auto.
            exfalso. assert (wi <> k) by (intros ->; apply Hpq; eapply b_uniq0; eauto; rewrite Ep; auto).
@@ -588,10 +588,9 @@ Proof.
         -- intros m0 todo0 old0 Eq. rewrite nth_upd_neq in Eq; eauto.
     + intros q1 q2 k H1 H2. rewrite nth_upd in *.
       destruct (Nat.eqb_spec p q1) as [->|N1].
-      { destruct (Nat.ltb _ _); cbn in H1; [discriminate|]. rewrite Ep in H1. cbn in H1.
-        destruct (Nat.eqb_spec q1 q2); auto. eapply b_uniq0; eauto. rewrite Ep; auto. }
+      { replace (Nat.ltb q1 (length (prods s))) with true in H1 by (symmetry; apply Nat.ltb_lt; auto). cbn in H1. discriminate. }
       destruct (Nat.eqb_spec p q2) as [->|N2].
-      { destruct (Nat.ltb _ _); cbn in H2; [discriminate|]. rewrite Ep in H2. cbn in H2. eapply b_uniq0; eauto. rewrite Ep; auto. }
+      { replace (Nat.ltb q2 (length (prods s))) with true in H2 by (symmetry; apply Nat.ltb_lt; auto). cbn in H2. discriminate. }
       eapply b_uniq0; eauto.
     + destruct b_zero0 as (? & ? & ? & ?). repeat split; auto. lia.
     + intros b Hb. rewrite Hidx. rewrite nth_upd. apply in_app_or in Hb as [Hb|[<-|[]]].
@@ -612,15 +611,12 @@ Proof.
     assert (sq = ri s).
     { symmetry. apply (idx_close s); auto; try lia. pose proof (b_cap _ B). lia. }
     subst sq. assert (Hm : (ri s + 1) mod two64 = ri s + 1) by (apply N.mod_small; cbn in Hc; lia).
-    rewrite N.ltb_irrefl.
+    rewrite N.ltb_irrefl in *. rewrite Hm in Hidx, Hsz |- *.
     destruct B. constructor; cbn [claims slots ri prods delivered alerts returned g_casfail g_newer g_ovl]; try rewrite Hsz; try rewrite Hm; auto.
     + lia.
     + intros i k m' H. rewrite Hidx. rewrite nth_upd in H.
       destruct (Nat.eqb_spec (idx s (ri s)) i) as [<-|Hi].
-      * destruct (Nat.ltb _ _); [discriminate|]. rewrite Es in H. inversion H; subst.
-        exfalso. rewrite nth_overflow in Es; [discriminate|]. apply Nat.ltb_ge. 
-        destruct (Nat.ltb (idx s (ri s)) (length (slots s))) eqn:E; auto.
-        pose proof (idx_lt s (ri s) Hn). unfold idx in *. apply Nat.ltb_ge in E. lia.
+      * replace (Nat.ltb (idx s (ri s)) (length (slots s))) with true in H by (symmetry; apply Nat.ltb_lt, idx_lt; auto). discriminate.
       * destruct (b_slot0 _ _ _ H) as [Hk' Ei']. split; auto.
         destruct (N.eq_dec k (ri s)) as [->|]; [congruence|lia].
     + intros q k H. rewrite Hidx. destruct (b_infl0 q k H) as (H1 & H2 & H3).
@@ -631,4 +627,95 @@ Proof.
       destruct (b_ret0 b Hb) as [Hd|Hsl]; [left; apply in_or_app; auto|].
       destruct (Nat.eqb_spec (idx s (ri s)) (idx s (fst b))) as [Ei'|]; auto.
       left. rewrite <- Ei', Es in Hsl. inversion Hsl; subst. apply in_or_app; right; left; auto.
+Qed.
+
+Lemma init_cap n ps : Cap (init n ps).
+Proof.
+  constructor; cbn.
+  - lia.
+  - intros i k m H. exfalso. eapply repeat_none_nth; eauto.
+  - intros p k H. exfalso. revert H. rewrite <- (map_nth pwi). cbn.
+    destruct (nth_In_or_default (map pwi (map PIdle ps)) p None) as [E|E]; [rewrite E; discriminate|].
+    intros H. rewrite H in E. apply in_map_iff in E as (x & E & Hx). apply in_map_iff in Hx as (y & <- & _). discriminate.
+  - intros p q k H. exfalso. revert H. rewrite <- (map_nth pwi). cbn.
+    destruct (nth_In_or_default (map pwi (map PIdle ps)) p None) as [E|E]; [rewrite E; discriminate|].
+    intros H. rewrite H in E. apply in_map_iff in E as (x & E & Hx). apply in_map_iff in Hx as (y & <- & _). discriminate.
+  - auto.
+  - tauto.
+Qed.
+
+Lemma cap_run n ps sched : (0 < n)%nat -> let s := run n ps sched in
+  claims s < two64 -> g_overcap s = false -> Cap s.
+Proof.
+  intros Hn. unfold run. cbv zeta. induction sched as [|a t IH] using rev_ind; intros Hc Ho.
+  - apply init_cap.
+  - rewrite exec_app in *. cbn [exec fold_left] in *.
+    assert (Hc' : claims (exec (init n ps) t) < two64) by (eapply N.le_lt_trans; [apply claims_mono1|exact Hc]).
+    apply cap_step with (ps := ps); auto.
+    + rewrite size_exec, size_init. lia.
+    + apply exec_inv; auto. apply init_inv.
+    + apply IH; auto. eapply overcap_back; eauto.
+Qed.
+
+(* C11_below_capacity_no_drop *)
+Lemma below_capacity n ps sched : (0 < n)%nat -> let s := run n ps sched in
+  claims s < two64 -> g_overcap s = false ->
+  alerts s = [] /\ g_casfail s = 0 /\ g_newer s = 0 /\
+  (forall b, In b (returned s) -> In b (delivered s) \/ slot_at s (fst b mod size s) = Some b) /\
+  (producers_done s = true -> drained s = true -> Permutation (delivered s) (returned s)).
+Proof.
+  intros Hn s Hc Ho.
+  pose proof (cap_run n ps sched Hn Hc Ho) as B. fold s in B.
+  pose proof (run_inv _ _ _ Hc) as I. fold s in I.
+  destruct (b_zero _ B) as (Z1 & Z2 & Z3 & Z4).
+  repeat split; auto.
+  - apply (b_ret _ B).
+  - intros Hd Hdr.
+    destruct (drain_partial n ps sched Hn Hc Z1 Z2 Z3 Hd Hdr) as [Hlen Hri]. fold s in Hlen, Hri.
+    rewrite Z4 in Hlen. change (sumN []) with 0 in Hlen.
+    apply NoDup_Permutation_bis.
+    + eapply nodup_of_map. apply sorted_nodup, (i_sorted _ _ I).
+    + lia.
+    + intros b Hb. pose proof (i_del_ret _ _ I) as F. eapply Forall_forall in F; eauto.
+Qed.
+
+(* ------------------------------------------------------------------ *)
+(* K2 / K3: the drain theorem is false without its premises            *)
+(* ------------------------------------------------------------------ *)
+(* a returned message that is neither delivered nor covered by the reported counts
+   although every Write returned and the consumer ran until TryNext failed *)
+Definition silent_loss (s : st) : Prop :=
+  producers_done s = true /\ drained s = true /\
+  N.of_nat (length (delivered s)) + sumN (alerts s) < N.of_nat (length (returned s)) /\
+  alerts s = [] /\
+  exists b, In b (returned s) /\ ~ In b (delivered s).
+
+Definition k2_ps : list (list N) := [[100; 101]; [102]].
+Definition k2_sched : list act :=
+  rep 6 (P 0) ++ [P 1; P 1; C; C] ++ rep 4 (P 1) ++ [C].
+Definition k3_ps : list (list N) := [[100; 101]; [200]].
+Definition k3_sched : list act :=
+  [P 1] ++ rep 6 (P 0) ++ [P 1; P 1; C; C; C].
+
+Lemma in_dec_bucket (b : bucket) l : {In b l} + {~ In b l}.
+Proof. apply in_dec. decide equality; apply N.eq_dec. Qed.
+
+Lemma hole_refuted :
+  let s := run 2 k2_ps k2_sched in
+  silent_loss s /\ g_casfail s = 1 /\ g_newer s = 0 /\ g_ovl s = 0 /\
+  delivered s = [(0, 100); (1, 101)] /\ returned s = [(0, 100); (1, 101); (3, 102)] /\ ri s = 2 /\ claims s = 4.
+Proof.
+  vm_compute. repeat split; auto; try discriminate.
+  exists (3, 102). split; [right; right; left; reflexivity|].
+  intros [H|[H|[]]]; discriminate.
+Qed.
+
+Lemma firstlap_overwrite_refuted :
+  let s := run 2 k3_ps k3_sched in
+  silent_loss s /\ g_casfail s = 0 /\ g_newer s = 0 /\ g_ovl s = 1 /\
+  delivered s = [(0, 200); (1, 100)] /\ returned s = [(1, 100); (2, 101); (0, 200)] /\ ri s = 2 /\ claims s = 3.
+Proof.
+  vm_compute. repeat split; auto; try discriminate.
+  exists (2, 101). split; [right; left; reflexivity|].
+  intros [H|[H|[]]]; discriminate.
 Qed.
